@@ -371,6 +371,12 @@ def single_assignment_env(func: ast.FunctionDef) -> dict[str, ast.expr]:
         if isinstance(n, ast.Assign):
             for t in n.targets:
                 if isinstance(t, (ast.Tuple, ast.List)):
+                    flat = all(isinstance(el, ast.Name) for el in t.elts)
+                    if flat and len(n.targets) == 1 and isinstance(n.value, (ast.Call, ast.Name, ast.Attribute, ast.Subscript)):
+                        # `a, b = f(x)`: a is f(x)[0], b is f(x)[1] (one binding each)
+                        for i, el in enumerate(t.elts):
+                            targets.append((el, ast.copy_location(ast.Subscript(value=n.value, slice=ast.Constant(value=i), ctx=ast.Load()), n.value)))
+                        continue
                     for el in ast.walk(t):
                         if isinstance(el, ast.Name):
                             counts[el.id] = counts.get(el.id, 0) + 2
